@@ -46,11 +46,21 @@ class Transport:
         n = min(self.avail(), len(buf))
         if self.max_read:
             n = min(n, self.max_read)
+        self.note_eof_read(n)
         for i in range(n):
             buf.back[buf.lo + i] = self.stream[self.pos + i]
         self.pos += n
         self.read_log.append(n)
         return n
+    def note_eof_read(self, n):
+        """a caller that keeps reading after the stream reported its end (0 bytes) never terminates: reported as a panic-like
+        failure of the path after 32 such reads (the native replay then runs into its time limit)"""
+        if n == 0 and self.pos >= len(self.stream):
+            self.eof_reads = getattr(self, 'eof_reads', 0) + 1
+            if self.eof_reads > 32:
+                raise Panic('the connection keeps reading after the end of the stream (32 reads of 0 bytes): it never returns')
+        else:
+            self.eof_reads = 0
     def on_drop(self, I):
         self.dropped = True
     def __repr__(self):
@@ -153,6 +163,7 @@ class ReadBufFut(PyFuture):
         if n == 0:
             if t.pos >= len(t.stream) and t.eof:
                 t.reads += 1; t.read_log.append(0)
+                t.note_eof_read(0)
                 return ok(0)
             t.pending_reads += 1
             if t.pending_reads > 10000:
